@@ -79,11 +79,28 @@ pub fn cert(v: &J) -> csl::Certificate {
         _ => panic!("cert kind {}", k),
     }
 }
-/// {"dep_n":[..],"cred":{..},"net":0}: an info-action proposal with the given deposit
+/// {"dep_n":[..],"cred":{..},"net":0,"act":0..6,"rm":[ids],"add":[ids]}: a proposal with the given deposit; "act" picks the governance
+/// action (default 6, the info action); for the committee update (4) "rm" / "add" list the members in the order they are handed over
 pub fn proposal(v: &J) -> csl::VotingProposal {
     let dflt = serde_json::json!({"t":0,"h":2});
     let c = cred(v.get("cred").unwrap_or(&dflt));
-    let act = csl::GovernanceAction::new_info_action(&csl::InfoAction::new());
+    let ids = |key: &str| -> Vec<u8> { v.get(key).and_then(|x| x.as_array()).map(|a| a.iter().map(|x| x.as_u64().unwrap() as u8).collect()).unwrap_or_default() };
+    let act = match v.get("act").and_then(|x| x.as_u64()).unwrap_or(6) {
+        0 => { let mut u = csl::ProtocolParamUpdate::new(); u.set_max_tx_size(20000); u.set_key_deposit(&csl::BigNum::from(3_000_000u64));
+               csl::GovernanceAction::new_parameter_change_action(&csl::ParameterChangeAction::new(&u)) }
+        1 => csl::GovernanceAction::new_hard_fork_initiation_action(&csl::HardForkInitiationAction::new(&csl::ProtocolVersion::new(11, 0))),
+        2 => { let mut tw = csl::TreasuryWithdrawals::new();
+               for (i, k) in ids("add").iter().enumerate() { tw.insert(&reward_addr(0, &csl::Credential::from_keyhash(&keyhash(*k))), &csl::BigNum::from(1_000_000u64 + i as u64)); }
+               csl::GovernanceAction::new_treasury_withdrawals_action(&csl::TreasuryWithdrawalsAction::new(&tw)) }
+        3 => csl::GovernanceAction::new_no_confidence_action(&csl::NoConfidenceAction::new()),
+        4 => { let mut com = csl::Committee::new(&csl::UnitInterval::new(&csl::BigNum::from(2u64), &csl::BigNum::from(3u64)));
+               for k in ids("add") { com.add_member(&csl::Credential::from_keyhash(&keyhash(k)), 100 + k as u32); }
+               let mut rm = csl::Credentials::new();
+               for k in ids("rm") { rm.add(&if k % 2 == 0 { csl::Credential::from_keyhash(&keyhash(k)) } else { csl::Credential::from_scripthash(&scripthash(k)) }); }
+               csl::GovernanceAction::new_new_committee_action(&csl::UpdateCommitteeAction::new(&com, &rm)) }
+        5 => csl::GovernanceAction::new_new_constitution_action(&csl::NewConstitutionAction::new(&csl::Constitution::new(&anchor()))),
+        _ => csl::GovernanceAction::new_info_action(&csl::InfoAction::new()),
+    };
     csl::VotingProposal::new(&act, &anchor(), &reward_addr(v.get("net").and_then(|x| x.as_u64()).unwrap_or(0) as u8, &c), &bn_of(&v["dep_n"]))
 }
 pub fn txin(u: u8, ix: u32) -> csl::TransactionInput {
@@ -129,8 +146,33 @@ pub fn byron_addr(k: u8, magic: u32) -> csl::ByronAddress {
         Err(_) => a,
     }
 }
-/// native script "signature of key k"
-pub fn pubkey_script(k: u8) -> csl::NativeScript { csl::NativeScript::new_script_pubkey(&csl::ScriptPubkey::new(&gkeyhash(k))) }
+/// native script of id k: "signature of key k" for k <= 20; compound scripts over the keys 21..24 above that (nested all / any / n-of-k
+/// with time locks in front of, between and behind the signature leaves). Every signature leaf is a key that signs.
+pub fn pubkey_script(k: u8) -> csl::NativeScript {
+    let sig = |k: u8| csl::NativeScript::new_script_pubkey(&csl::ScriptPubkey::new(&gkeyhash(k)));
+    let list = |v: Vec<csl::NativeScript>| { let mut l = csl::NativeScripts::new(); for x in v.iter() { l.add(x); } l };
+    let before = |n: u64| csl::NativeScript::new_timelock_start(&csl::TimelockStart::new_timelockstart(&csl::BigNum::from(n)));
+    let after = |n: u64| csl::NativeScript::new_timelock_expiry(&csl::TimelockExpiry::new_timelockexpiry(&csl::BigNum::from(n)));
+    match k {
+        21 => csl::NativeScript::new_script_all(&csl::ScriptAll::new(&list(vec![sig(21), sig(22)]))),
+        22 => csl::NativeScript::new_script_all(&csl::ScriptAll::new(&list(vec![sig(22), csl::NativeScript::new_script_any(&csl::ScriptAny::new(&list(vec![sig(23), sig(24)])))]))),
+        23 => csl::NativeScript::new_script_n_of_k(&csl::ScriptNOfK::new(2, &list(vec![after(10), sig(23), sig(24)]))),
+        24 => csl::NativeScript::new_script_any(&csl::ScriptAny::new(&list(vec![before(0), csl::NativeScript::new_script_n_of_k(&csl::ScriptNOfK::new(1, &list(vec![after(1 << 33), sig(24), sig(21), sig(22)])))]))),
+        _ => sig(k),
+    }
+}
+/// ids of the keys at the signature leaves of a native script
+pub fn native_leaves(ns: &csl::NativeScript) -> Vec<u8> {
+    let mut out = vec![];
+    fn walk(ns: &csl::NativeScript, out: &mut Vec<u8>) {
+        if let Some(pk) = ns.as_script_pubkey() { let h = pk.addr_keyhash().to_bytes(); for k in 1u8..=24 { if pubinfo(k).1 == h && !out.contains(&k) { out.push(k); } } }
+        let kids = ns.as_script_all().map(|x| x.native_scripts()).or(ns.as_script_any().map(|x| x.native_scripts())).or(ns.as_script_n_of_k().map(|x| x.native_scripts()));
+        if let Some(l) = kids { for i in 0..l.len() { walk(&l.get(i), out); } }
+    }
+    walk(ns, &mut out);
+    out
+}
+pub fn signers_of(k: u8) -> Vec<u8> { native_leaves(&pubkey_script(k)) }
 
 /// address spec: {"kind":"ent"|"base"|"byron"|"reward"|"ptr"|"script_ent"|"script_base", "k":id, "s":id, "net":0|1, "magic":n}
 pub fn addr(v: &J) -> csl::Address {
